@@ -49,7 +49,7 @@ func (c17) ID() string       { return "C17" }
 func (c17) New() interface{} { return &C17Script{} }
 func (c17) Info() core.Info {
 	return core.Info{
-		Runs: map[string]int{"quick": 150000, "thorough": 10000000},
+		Runs: map[string]int{"quick": 1500000, "thorough": 100000000},
 		Rule: "Each run is one scripted caller history (<=60 operations: WritePacket of payload-only / AF+payload (AF length 0..183) / AF-only / AF-overrunning packets with or without unit start, Reset, overwrite of the caller's packet buffer after hand-over, scribbling on returned Bytes()/Packets() slices) on a real accumulator with a scripted predicate (threshold, never, always, error window, flapping); Bytes() and Packets() are compared with a 3-state reference model after every operation and a fresh accumulator runs in lock-step after every Reset; plus a complete sweep of all histories of length <=6 over a 7-letter alphabet with a threshold predicate. Non-trivial = at least one reach probe fired.",
 		Real: []string{"packet.NewAccumulator", "(*accumulator).WritePacket/Bytes/Packets/Reset", "packet.Payload", "packet.PayloadUnitStartIndicator"},
 		Stub: []string{"caller (scripted operation history, buffer reuse)", "predicate (scripted, pure in the bytes)", "packet source"},
